@@ -671,7 +671,7 @@ func run(a hx.RunArgs) error {
 			corpus := [][3]string{
 				{"9223372036854775807", "add", "1"}, {"9223372036854775807", "mul", "2"}, {"-9223372036854775808", "sub", "1"},
 				{"18446744073709551615", "add", "1"}, {"18446744073709551615", "sub", "1"}, {"18446744073709551615", "add", "-9223372036854775808"},
-				{"200", "sub", "201"}, {"-9223372036854775808", "idiv", "-1"}, {"-5", "idiv", "200"}, {"18446744073709551615", "idiv", "1"},
+				{"200", "sub", "201"}, {"-9223372036854775808", "idiv", "-1"}, {"-5", "idiv", "200"}, {"-500", "idiv", "200"}, {"18446744073709551615", "idiv", "1"},
 				{"7", "idiv", "2"}, {"-7", "idiv", "2"}, {"7", "idiv", "-2"}, {"-7", "mod", "2"}, {"7", "mod", "-2"}, {"1", "div", "3"}, {"2", "div", "3"},
 				{"-2", "div", "3"}, {"1", "div", "0"}, {"1", "idiv", "0"}, {"1", "mod", "0"}, {"3000001", "div", "20000006667"},
 			}
